@@ -384,24 +384,123 @@ Proof.
       split; [constructor; assumption|]. split; [assumption|]. intros d. rewrite !owed_x_cons. specialize (I3 d). lia.
 Qed.
 
+(* ---------------- lend programs ---------------- *)
+Lemma lend_loop_spec apr : forall arr bal tr,
+  let '(b, t, ps) := lend_loop apr arr bal tr in
+  b = bal - pay_total ps /\ 0 <= pay_total ps <= t - tr /\ (0 <= bal -> 0 <= b).
+Proof.
+  unfold pay_total. induction arr as [|[a amt] rest IH]; intros bal tr; cbn [lend_loop].
+  - cbn. lia.
+  - destruct (Z.ltb_spec 0 (dtrunc_int (dmul amt apr))); [|apply IH].
+    set (f := dtrunc_int (dmul amt apr)) in *.
+    destruct (Z.leb_spec f bal).
+    + specialize (IH (bal - f) (tr + f)). destruct (lend_loop apr rest (bal - f) (tr + f)) as [[b1 t1] ps1].
+      cbn [map snd zsum]. lia.
+    + specialize (IH bal (tr + f)). destruct (lend_loop apr rest bal (tr + f)) as [[b1 t1] ps1].
+      cbn [map snd zsum]. lia.
+Qed.
+
+Lemma lend_loop_indep apr : forall arr b1 b2 tr,
+  snd (fst (lend_loop apr arr b1 tr)) = snd (fst (lend_loop apr arr b2 tr)).
+Proof.
+  induction arr as [|[a amt] rest IH]; intros b1 b2 tr; cbn [lend_loop]; [reflexivity|].
+  destruct (0 <? dtrunc_int (dmul amt apr)); [|apply IH].
+  set (f := dtrunc_int (dmul amt apr)).
+  set (p1 := if f <=? b1 then (b1 - f, f) else (b1, 0)). set (p2 := if f <=? b2 then (b2 - f, f) else (b2, 0)).
+  destruct p1 as [c1 g1], p2 as [c2 g2]. specialize (IH c1 c2 (tr + f)).
+  destruct (lend_loop apr rest c1 (tr + f)) as [[? ?] ?], (lend_loop apr rest c2 (tr + f)) as [[? ?] ?]. exact IH.
+Qed.
+
+(* everything but the balance and the receipts is independent of the custody balance *)
+Lemma lend_tick_indep now e arr tot b1 b2 x :
+  match lend_tick now e arr tot b1 x, lend_tick now e arr tot b2 x with
+  | Ok (Some (x1, _, _, a1, t1)), Ok (Some (x2, _, _, a2, t2)) => x1 = x2 /\ a1 = a2 /\ t1 = t2
+  | Ok None, Ok None => True
+  | Err _, Err _ => True
+  | Panic, Panic => True
+  | _, _ => False
+  end.
+Proof.
+  unfold lend_tick. destruct (negb (x_active x)); [auto|]. destruct (negb (x_next x <? now)); [auto|].
+  destruct (x_count x <? x_days x); [|auto]. destruct (negb (le_ok e)); [auto|].
+  destruct (le_price e) as [[twa decimals]|]; [|auto]. destruct (decimals =? 0); [auto|].
+  destruct (_ <=? 0); [auto|].
+  match goal with |- context [lend_loop ?apr ?arr b1 0] => pose proof (lend_loop_indep apr arr b1 b2 0) as Hi;
+    destruct (lend_loop apr arr b1 0) as [[c1 t1] p1], (lend_loop apr arr b2 0) as [[c2 t2] p2] end.
+  cbn [fst snd] in Hi. subst t2. auto.
+Qed.
+
+Lemma lend_tick_step now e arr tot bal x x' bal' paid arr' tot' :
+  lend_tick now e arr tot bal x = Ok (Some (x', bal', paid, arr', tot')) -> XInv x -> 0 <= bal ->
+  kf_C19_4 now e arr tot x = false ->
+  XInv x' /\ 0 <= bal' /\ x_avail x' - x_avail x <= bal' - bal /\ x_denom x' = x_denom x.
+Proof.
+  unfold XInv, kf_C19_4. intros E HX Hb Hk.
+  pose proof (lend_tick_indep now e arr tot bal 0 x) as Hi. rewrite E in Hi.
+  destruct (lend_tick now e arr tot 0 x) as [[[[[[x2 ?] ?] a2] t2]|]| |]; try contradiction.
+  destruct Hi as (<- & _ & _). apply Z.ltb_ge in Hk. split; [assumption|].
+  revert E. unfold lend_tick.
+  destruct (negb (x_active x)). { intros E; injection E as <- <- <- <- <-. repeat split; lia. }
+  destruct (negb (x_next x <? now)). { intros E; injection E as <- <- <- <- <-. repeat split; lia. }
+  destruct (x_count x <? x_days x).
+  2:{ intros E; injection E as <- <- <- <- <-. cbn. repeat split; lia. }
+  destruct (negb (le_ok e)); [discriminate|].
+  destruct (le_price e) as [[twa decimals]|]. 2:{ intros E; injection E as <- <- <- <- <-. repeat split; lia. }
+  destruct (decimals =? 0); [discriminate|].
+  destruct (_ <=? 0). { intros E; injection E as <- <- <- <- <-. repeat split; lia. }
+  match goal with |- context [lend_loop ?apr ?arr bal 0] => pose proof (lend_loop_spec apr arr bal 0) as Hs;
+    destruct (lend_loop apr arr bal 0) as [[c1 t1] p1] end.
+  intros E; injection E as <- <- <- <- <-. cbn [x_avail x_denom]. repeat split; lia.
+Qed.
+
+Lemma run_lends_inv now : forall xs le arr tot b xs' b' ps,
+  run_lends now xs le arr tot b = Ok (xs', b', ps) ->
+  Forall XInv xs -> BInv b -> kf4_pass now xs le arr tot = false ->
+  Forall XInv xs' /\ BInv b' /\ (forall d, owed_x d xs' - owed_x d xs <= b' d - b d).
+Proof.
+  induction xs as [|x rest IH]; intros le arr tot b xs' b' ps E HX HB Hk; cbn [run_lends] in E.
+  - injection E as <- <- <-. repeat split; [constructor|assumption|intros; lia].
+  - inversion HX as [|? ? Hx Hrest]; subst. cbn [kf4_pass] in Hk.
+    destruct (Z.eqb_spec (x_kind x) 2) as [Hd|Hd].
+    + apply orb_false_iff in Hk. destruct Hk as [Hk1 Hk2].
+      pose proof (lend_tick_indep now (hd_lenv le) arr tot (b (x_denom x)) 0 x) as Hi.
+      destruct (lend_tick now (hd_lenv le) arr tot (b (x_denom x)) x) as [[[[[[x1 bal1] paid] arr1] tot1]|]| |] eqn:Et; try discriminate.
+      2:{ injection E as <- <- <-. repeat split; [assumption|assumption|intros; lia]. }
+      destruct (lend_tick now (hd_lenv le) arr tot 0 x) as [[[[[[x2 ?] ?] a2] t2]|]| |]; try contradiction.
+      destruct Hi as (_ & <- & <-).
+      destruct (run_lends now rest (tl le) arr1 tot1 (bset b (x_denom x) bal1)) as [[[xs1 b1] ps1]| |] eqn:Er; try discriminate.
+      injection E as <- <- <-.
+      pose proof (lend_tick_step _ _ _ _ _ _ _ _ _ _ _ Et Hx (HB _) Hk1) as (T1 & T2 & T3 & T4).
+      specialize (IH _ _ _ _ _ _ _ Er Hrest (BInv_bset _ _ _ HB T2) Hk2). destruct IH as (I1 & I2 & I3).
+      split; [constructor; assumption|]. split; [assumption|]. intros d. rewrite !owed_x_cons, T4. specialize (I3 d).
+      destruct (Z.eqb_spec (x_denom x) d) as [He|Hne].
+      * subst d. rewrite bset_same in I3. lia.
+      * rewrite bset_other in I3 by congruence. lia.
+    + destruct (run_lends now rest (tl le) arr tot b) as [[[xs1 b1] ps1]| |] eqn:Er; try discriminate.
+      injection E as <- <- <-. specialize (IH _ _ _ _ _ _ _ Er Hrest HB Hk). destruct IH as (I1 & I2 & I3).
+      split; [constructor; assumption|]. split; [assumption|]. intros d. rewrite !owed_x_cons. specialize (I3 d). lia.
+Qed.
+
 (* ---------------- histories ---------------- *)
 Definition RInv (s : rstate) : Prop :=
   Forall GInv (r_gauges s) /\ Forall XInv (r_exts s) /\ BInv (r_bal s) /\ forall d, owed d s <= r_bal s d.
 
 Lemma begin_block_inv now e s s' ps :
   begin_block now e s = Ok (s', ps) -> RInv s -> forallb recv_wf (be_recv e) = true ->
-  kf2_begin now e s = false -> kf3_begin now e s = false -> RInv s'.
+  kf2_begin now e s = false -> kf3_begin now e s = false -> kf4_begin now e s = false -> RInv s'.
 Proof.
-  unfold begin_block, kf2_begin, kf3_begin, RInv, owed. intros E (HG & HX & HB & HO) Hw K2 K3.
+  unfold begin_block, kf2_begin, kf3_begin, kf4_begin, RInv, owed. intros E (HG & HX & HB & HO) Hw K2 K3 K4.
   destruct (run_epochs now (r_epochs s) (r_gauges s) (be_farm e) (be_recv e) (r_bal s)) as [[[[es gs] b1] p1]| |] eqn:E1; try discriminate.
   apply orb_false_iff in K3. destruct K3 as [K3a K3b].
   destruct (run_exts 0 now (r_exts s) (be_ext e) b1) as [[[xs1 b2] p2]| |] eqn:E2; try discriminate.
   destruct (run_exts 1 now xs1 (be_ext e) b2) as [[[xs2 b3] p3]| |] eqn:E3; try discriminate.
+  destruct (run_lends now xs2 (be_lend e) [] 0 b3) as [[[xs3 b4] p4]| |] eqn:E4; try discriminate.
   injection E as <- <-. cbn [r_bal r_gauges r_exts].
   pose proof (run_epochs_inv _ _ _ _ _ _ _ _ _ _ E1 HG HB Hw K2) as (A1 & A2 & A3).
   pose proof (run_exts_inv _ _ _ _ _ _ _ _ E2 HX A2 K3a) as (B1 & B2 & B3).
   pose proof (run_exts_inv _ _ _ _ _ _ _ _ E3 B1 B2 K3b) as (C1 & C2 & C3).
-  repeat split; try assumption. intros d. specialize (HO d). specialize (A3 d). specialize (B3 d). specialize (C3 d). lia.
+  pose proof (run_lends_inv _ _ _ _ _ _ _ _ _ E4 C1 C2 K4) as (D1 & D2 & D3).
+  repeat split; try assumption. intros d. specialize (HO d). specialize (A3 d). specialize (B3 d). specialize (C3 d). specialize (D3 d). lia.
 Qed.
 
 Lemma rstep_inv s o s' ps : RInv s -> op_wf o = true -> kf_step s o = false -> rstep s o = Ok (s', ps) -> RInv s'.
@@ -428,8 +527,8 @@ Proof.
     + intros x. unfold bset. specialize (HB x). destruct (Z.eqb_spec x d); [subst x|]; lia.
     + intros x. rewrite owed_x_app, owed_x_cons. replace (owed_x x []) with 0 by reflexivity. cbn [x_denom x_avail].
       specialize (HO x). unfold owed in HO. unfold bset. rewrite (Z.eqb_sym d x). destruct (Z.eqb_spec x d); [subst x|]; lia.
-  - intros H. cbn [kf_step] in Hk. apply orb_false_iff in Hk. destruct Hk as [K2 K3]. cbn [op_wf] in Hw.
-    eapply begin_block_inv; eassumption.
+  - intros H. cbn [kf_step] in Hk. apply orb_false_iff in Hk. destruct Hk as [Hk K4]. apply orb_false_iff in Hk. destruct Hk as [K2 K3].
+    cbn [op_wf] in Hw. eapply begin_block_inv; eassumption.
   - destruct (Z.ltb_spec a 0); [discriminate|]. intros H'. injection H' as <- <-.
     unfold RInv, owed. cbn [r_bal r_gauges r_exts]. repeat split; try assumption.
     + intros x. unfold bset. specialize (HB x). destruct (Z.eqb_spec x d); [subst x|]; lia.
@@ -488,6 +587,7 @@ Proof.
   destruct (run_epochs now (r_epochs s) (r_gauges s) (be_farm e) (be_recv e) (r_bal s)) as [[[[es gs] b1] p1]| |] eqn:E1; try discriminate.
   destruct (run_exts 0 now (r_exts s) (be_ext e) b1) as [[[xs1 b2] p2]| |]; try discriminate.
   destruct (run_exts 1 now xs1 (be_ext e) b2) as [[[xs2 b3] p3]| |]; try discriminate.
+  destruct (run_lends now xs2 (be_lend e) [] 0 b3) as [[[xs3 b4] p4]| |]; try discriminate.
   injection E as <- <-. cbn [r_gauges]. eapply run_epochs_ginvr; eassumption.
 Qed.
 
@@ -904,4 +1004,14 @@ Proof.
   assert (F6 : p * p * 1 <= p * p * D) by (apply Z.mul_le_mono_nonneg_l; nia).
   assert (F7 : k * h * D * 2 = k * p * D) by (subst p; ring_simplify; lia).
   lia.
+Qed.
+
+(* class C19-F4 witness: 1 000 000 of a reward token priced 2.0, one day, one borrower: 2 000 000 are paid *)
+Lemma custody_lend_refuted : exists ops d, forallb op_wf ops = true /\ run_clean rinit ops = false /\
+  let s := rrun rinit ops in
+  r_bal s d < owed_g d (r_gauges s) /\ holds_C19_custody d (r_bal s d) (r_gauges s) (r_exts s) = false.
+Proof.
+  exists [ExtCreate 2 1 1000000 1 1 0 1000000 true; Create 1 5000000 3 500000 0 86400 5000000 true;
+          Begin 90000 (mkBenv4 [FarmErr] [] [] [mkLenv true [(1, 50000000000000000000)] (Some (2000000, 1000000))])], 1.
+  vm_compute. repeat split.
 Qed.
